@@ -14,7 +14,7 @@ import ast
 
 from ..match import calls, expected_term, returns, term_of
 from ..model import own_nodes, parents
-from ..terms import show, walk_term
+from ..terms import Canon, Scope, show, walk_term
 
 EXPLANATION = ('Sibling agreement / canonical-term equality (R6, R15) of the recorded indices with the number of appended columns; term checks of the duplicate / combination constructions; '
                'canonical form of the correlation construction (arccos, cot = 1/tan, orthogonal projection); structure of the percentile labelling; ownership analysis (R11: same-as / view-of / fresh) '
@@ -95,7 +95,8 @@ def copies_and_combinations(repo, chk):
     none_atom = E('combination_function is None')
     for ctype, want_t in want.items():
         paths = run_paths(fn, lambda e: isinstance(e, ast.Name) and e.id == 'combination_type', ctype, max_forks=3, eval_closures=True)
-        sel = [(a_, res) for a_, res in (paths or []) if any(term_of(fn, t, inline=False) == none_atom and v for t, v in res.assumed)]
+        _cn = Canon(m, Scope(None))
+        sel = [(a_, res) for a_, res in (paths or []) if any((term_of(fn, t, inline=False) == none_atom and v) or (_cn._not(term_of(fn, t, inline=False)) == none_atom and not v) for t, v in res.assumed)]
         if not sel or any(res.unknown is not None or res.returned is None for _, res in sel):
             node = next((res.unknown for _, res in sel if res.unknown is not None), None)
             chk.unsure('C20.2b', 'R15', fn.site(node) if node is not None else fn.site(), f'combination_type = {ctype!r}', 'the path that applies the built-in combination function could not be evaluated')
@@ -214,7 +215,8 @@ def labels(repo, chk):
             chk.unsure('C20.4c', 'R15', fn.site(), f'class_relation = {rel!r}', 'no statement applies the decision function')
             break
         paths = run_paths(fn, lambda e: isinstance(e, ast.Name) and e.id == 'class_relation', rel, max_forks=6, body=fn.node.body[:first_use], eval_closures=True)
-        sel = [(a_, res) for a_, res in (paths or []) if res.raised is None and any(term_of(fn, t, inline=False) == none_atom and v for t, v in res.assumed)]
+        _cn = Canon(m, Scope(None))
+        sel = [(a_, res) for a_, res in (paths or []) if res.raised is None and any((term_of(fn, t, inline=False) == none_atom and v) or (_cn._not(term_of(fn, t, inline=False)) == none_atom and not v) for t, v in res.assumed)]
         if not sel or any(res.unknown is not None for _, res in sel):
             chk.unsure('C20.4c', 'R15', fn.site(), f'class_relation = {rel!r}', 'the statements that choose the built-in decision function could not be evaluated')
             continue
